@@ -1,7 +1,83 @@
 import ComposeVerif.Ops.Common
-/-! line-protocol ops for C05 (filled in by the property's owner) -/
+import ComposeVerif.Model.Extends
+import ComposeVerif.Gen.Tables
+/-! line-protocol ops for C05: `c05.apply` (ApplyExtends over a file-system table), `c05.extend` (plain ExtendService) -/
+open Lean
 namespace CV.Ops.C05
+open CV CV.Val CV.Extends
 
-def handlers : List (String × Handler) := []
+def outJson {α : Type} (f : α → Json) : Out α → Json
+  | .ok a => Json.mkObj [("ok", f a)]
+  | .err c => Json.mkObj [("err", c)]
+  | .panic s => Json.mkObj [("panic", s)]
+
+def fileResOfJson (j : Json) : FileRes :=
+  match j.getObjVal? "err" with
+  | .ok (.str c) => .err c
+  | _ =>
+    match j.getObjVal? "panic" with
+    | .ok (.str c) => .panic c
+    | _ =>
+    match j.getObjVal? "ok" with
+    | .ok v =>
+      match Val.ofJson v with
+      | .ok (.map doc) => .ok doc (getBool j "rerr")
+      | _ => .err "bad-doc"
+    | _ => .err "bad-entry"
+
+def fsOfJson (j : Json) : FS :=
+  match j with
+  | .arr a => a.toList.filterMap fun e => match e with
+    | .arr #[.str k, r] => some (k, fileResOfJson r)
+    | _ => none
+  | _ => []
+
+def perms : List String → List (List String)
+  | [] => [[]]
+  | x :: xs => (perms xs).flatMap fun p => (List.range (p.length + 1)).map fun i => p.take i ++ [x] ++ p.drop i
+
+def mkEnv (args : Json) : Env :=
+  { mainFile := getStr args "main", fs := fsOfJson (getObj args "fs"),
+    extend := plainExtend CV.Gen.mergeSpecials }
+
+/-- all outcomes of `ApplyExtends` over the visit orders of the services map (Go's order is random):
+    `{"outs":[…distinct…]}`; with more than 5 services only the list order and its reverse are tried. -/
+def apply : Handler := fun args =>
+  let E := mkEnv args
+  match Val.ofJson (getObj args "dict") with
+  | .ok (.map dict) =>
+    let orders : List (List String) :=
+      match getObj args "order" with
+      | .arr _ => [getStrList args "order"]
+      | _ =>
+        match lookup "services" dict with
+        | some (.map S) => if (keys S).length ≤ 5 then perms (keys S) else [keys S, (keys S).reverse]
+        | _ => [[]]
+    let outs := orders.map fun o => (outJson (fun d => Val.toJson (.map d)) (applyExtendsOrd E o dict)).compress
+    let distinct := outs.foldl (fun acc s => if acc.contains s then acc else acc ++ [s]) ([] : List String)
+    Json.mkObj [("outs", Json.arr (distinct.filterMap fun s => (Json.parse s).toOption).toArray)]
+  | _ => Json.mkObj [("bad", "dict")]
+
+/-- plain `override.ExtendService` -/
+def extend : Handler := fun args =>
+  match Val.ofJson (getObj args "base"), Val.ofJson (getObj args "over") with
+  | .ok (.map b), .ok (.map o) => outJson (fun d => Val.toJson (.map d)) (plainExtend CV.Gen.mergeSpecials b o)
+  | _, _ => Json.mkObj [("bad", "args")]
+
+/-- `cycleTracker.Add` fed with a key sequence: index of the first rejected key, or -1 -/
+def tracker : Handler := fun args =>
+  let keys : List Key := match getObj args "keys" with
+    | .arr a => a.toList.filterMap fun e => match e with
+      | .arr #[.str f, .str n] => some (f, n)
+      | _ => none
+    | _ => []
+  let rec go (tr : List Key) (i : Nat) : List Key → Int
+    | [] => -1
+    | k :: ks => match trackerAdd tr k with
+      | none => i
+      | some tr' => go tr' (i + 1) ks
+  Json.mkObj [("rejected", Json.num (JsonNumber.fromInt (go [] 0 keys)))]
+
+def handlers : List (String × Handler) := [("c05.apply", apply), ("c05.extend", extend), ("c05.tracker", tracker)]
 
 end CV.Ops.C05
